@@ -43,11 +43,11 @@
 (*                                                                         *)
 (* Universe: Dims = <<P, E, Q, D>> (2 x 2 x 2 x 2) over the structured     *)
 (* generators of TableSpace (base pattern + one perturbation + second      *)
-(* table).  Measured: "quick" 74 001 distinct states (3 947 distinct table  *)
-(* lists, 6 405 tables processed), "thorough" 2 036 684 distinct states    *)
-(* (74 374 table lists, 140 153 tables); every action taken, every ttype   *)
-(* reached (harness/s7.py checks the coverage).  The universe is           *)
-(* restricted to what the model claims to decide:                          *)
+(* table).  Measured: "quick" 46 372 distinct states (3 947 distinct table  *)
+(* lists, 6 405 tables processed, 31 576 requests), "thorough" 989 834      *)
+(* distinct states (74 374 table lists, 140 153 tables); every action      *)
+(* taken, every ttype reached (harness/s7.py checks the coverage).  The    *)
+(* universe is restricted to what the model claims to decide:              *)
 (*   EdgeFree    no comparison on a knife edge of a tolerance              *)
 (*   Admissible  slice 0 is representative (true for real elements: slice  *)
 (*               p is the same functions at permuted points).  With        *)
